@@ -29,8 +29,25 @@ def plan(tier, seed):
     return [{"kind": "programs", "n": 220 if tier == "quick" else 1000} for _ in range(n)]
 
 
+TINY = [
+    [("deffn", "twice", [("x", None, False)], ("bin", "*", programs.I(2), programs.V("x")))],
+    [("def", "n", programs.I(5))],
+    [("fn", [("x", None, False)], programs.V("x"))],
+    [programs.I(1)], [programs.S("s")], [("list", [programs.I(1), programs.I(2)])],
+    [("for", ["i"], None, ("lit", ("list", (("int", 1), ("int", 2)))), ("seq", [programs.V("i")]))],
+    [("if", [(programs.B(True), programs.I(1))], None)],
+    [("deffn", "noarg", [], programs.S("v"))],
+    [("def", "f", ("fn", [], programs.I(3)))],
+    [("deffn", "a", [], programs.I(1)), ("deffn", "b", [], programs.I(2))],
+    [("def", "m", programs.I(1)), ("deffn", "last", [("p", programs.I(2), False)], programs.V("p"))],
+]
+
+
 def gen_program(r, i):
     g = programs.Gen(r)
+    if i % 11 == 10:
+        # programs of one or two statements: what the whole script evaluates to, whatever follows its last statement
+        return "tiny", ("seq", list(r.choice(TINY)))
     k = i % 5
     if k == 0:
         return "scoping", g.scoping_program()
@@ -59,6 +76,16 @@ def gen_program(r, i):
     stmts.append(("def", "lam_", ("fn", [("p", None, False)], programs.V("p"))))
     stmts.append(programs.LOG("reflect", ("list", [programs.CALL("info", programs.V("helper_")), programs.CALL("string", programs.V("helper_")), programs.CALL("info", programs.V("lam_")),
                                                    programs.CALL("string", programs.V("lam_")), programs.CALL("info", programs.V("log")), programs.CALL("helper_", programs.I(3))])))
+    # a program may define a function with the name an operator stands for: both spellings of the operator mean it
+    if r.random() < 0.3:
+        stmts.append(("deffn", "not_equals", [("a", None, False), ("b", None, False)], ("list", [programs.S("user-defined"), programs.V("a"), programs.V("b")])))
+        stmts.append(programs.LOG("shadowed-not-equals", ("list", [("chain", [programs.I(1), programs.I(2)], ["!="]), ("chain", [programs.S("a"), programs.S("a")], ["!="])])))
+    # string literals whose text is a word of the language, as operands of the word operators
+    kw = r.choice(["not", "in", "is", "and", "or", "empty", "zero", "to", "end", "do", "then", "keys", "all", "TRUE", "NULL", "string", "with"])
+    stmts.append(("def", "kw_", programs.S(kw)))
+    stmts.append(programs.LOG("keyword-like-strings", ("list", [("chain", [programs.V("kw_"), programs.S(kw)], ["is"]), ("chain", [programs.V("kw_"), programs.S(kw)], ["=="]),
+                                                               ("in", programs.S(kw), ("list", [programs.S(kw)])), ("chain", [programs.S(kw), programs.V("kw_")], ["!="]),
+                                                               ("not", ("chain", [programs.V("kw_"), programs.S("x" + kw)], ["is"]))])))
     return "operators", ("seq", stmts)
 
 
@@ -87,9 +114,31 @@ REJECTED = ["(1 + ", "(a + ) * 2", "(1; 2;)", "((((((((((", "((((((((((1 +", "[1
             "def f(a, = 1) a", "\"abc\\", "(fn(x) (x", "[x for x in (", "((((((((((((((((((((((((((((((", "- - (", "not (not (", "1 is (", "a->(", "%s" % ("(" * 50)]
 
 
+RAW_SCRIPTS = ["def twice(x) 2 * x", "def n = 5", "fn(x) x", "1", "'s'", "[1, 2]", "for i in [1, 2] do i end", "if TRUE then 1", "def noarg() 'v'", "def f = fn() 3",
+               "def a() 1; def b() 2", "def m = 1; def last(p = 2) p", "def class K do def a = 1 end", "do 1 end", "def [p, q] = [1, 2]", "def g(x) do x end",
+               "require Math", "x = 1", "error 'e'", "NULL", "def h(a, b...) b..."]
+RAW_ENDINGS = [";", " ;", ";\n", "\n;", " # c\n", "; # done", "\r\n;\r\n", "\n", "\t", " ;\n\n", "\n# c\n;"]
+
+
+def run_raw_scripts(ctx, R):
+    """whole scripts of one or two statements: what follows the last statement (an optional semicolon, blanks, a comment,
+    line breaks) changes neither the result nor the error"""
+    for script in RAW_SCRIPTS:
+        base, blog, o = R.run_text(script)
+        for end in RAW_ENDINGS:
+            got, glog, o2 = R.run_text(script + end)
+            ctx.count("raw_script_renderings")
+            ctx.case(script + end, nontrivial=True)
+            if not differ.same_summary(got, base):
+                ctx.violation("C14:raw-script:ending", "%r -> %r, but %r -> %r" % (script, base, script + end, got), {"canonical": script, "rendering": script + end})
+                break
+
+
 def run_shard(spec, ctx):
     R = differ.RealRunner(secure=True, legacy=True)
     r = ctx.rng
+    if ctx.shard == 0:
+        run_raw_scripts(ctx, R)
     for i in range(spec["n"]):
         if i % 3 == 1:
             # scripts the parser rejects half way, between the checked ones: nothing of them may linger
@@ -104,6 +153,19 @@ def run_shard(spec, ctx):
         bout = R.out.output
         ctx.count("programs")
         if base[0] == "syntax":
+            # a harness defect - unless the same tokens with redundant parentheses are accepted: then parentheses decide
+            accepted = None
+            for _try in range(4):
+                rd = render.Renderer(style=r, paren_p=0.8, semi_p=0.0)
+                alt = " ".join(rd.program(prog))
+                got, glog, o2 = R.run_text(alt)
+                if got[0] != "syntax":
+                    accepted = alt
+                    break
+            if accepted is not None:
+                ctx.violation("C14:%s:parentheses-decide-acceptance" % family, "canonical %r is rejected (%s) but %r is accepted" % (
+                    text0[:500], core.safe_str(o.exc, 80), accepted[:500]), {"canonical": text0, "rendering": accepted})
+                continue
             ctx.count("harness_syntax_errors")
             ctx.note("canonical rendering does not parse: %s :: %s" % (core.safe_str(o.exc, 80), text0[:300]))
             continue
